@@ -15,7 +15,8 @@ Configs == [dim : Dims, series : {0, 1}, scalar : {0, 1}, dtype : DTypes, timeki
 ByteFormats == [fmt : {"png", "tiff"}, bits : {8, 16}, layout : {"grey", "single", "colour"}]
 KindOf(layout) == IF layout = "colour" THEN "OpticalImage" ELSE "ScalarImage"
 
-Fields == <<"shape", "tags", "dtype", "space_dim", "series", "scalar", "origin", "dims", "time", "date", "name", "indexing">>
+\* "colour": colour space of an optical image and whether the object is one ("none" for other images)
+Fields == <<"shape", "tags", "dtype", "space_dim", "series", "scalar", "origin", "dims", "time", "date", "name", "indexing", "colour">>
 Diff(a, b) == {Fields[i] : i \in {j \in 1..Len(Fields) : a[Fields[j]] # b[Fields[j]]}}
 ClauseOfField(f) == CASE f \in {"shape", "tags"} -> "ReloadedPixelsIdentical"
                       [] f = "dtype" -> "ReloadedDtypeIdentical"
